@@ -52,4 +52,5 @@ def run(chk, ix, tier):
     chk.require_instances("E8", 10)
     chk.require_instances("E4", 8)
     chk.require_instances("E9", 30)
-    chk.require_instances("E7", 2)
+    chk.require_instances("E7", 3)
+    chk.require_instances("E10", 2)
